@@ -154,7 +154,7 @@ func c20Negate(c *core.Ctx, leaves []amtLeaf) {
 		}
 		ro, ok := om.Of(core.RecvExpr(call))
 		if ok && ro.Path == lo.Path {
-			if why := everyIteration(p, info, fd.Decl.Body, as, nilTestOnly(info)); why != "" {
+			if why := everyIteration(p, info, fd.Decl.Body, as, nilTestOfOperands(info, as)); why != "" {
 				skipped[lo.Path] = why
 			} else {
 				negated[lo.Path] = true
